@@ -121,10 +121,10 @@ Qed.
 
 Transparent emit emit_const.
 
-Theorem compile_fixed_rejects_unsupported : forall (p : slist) (st : cstate),
-  compile_fixed p = COk st -> supported_slist p = true.
+Theorem compile_rejects_unsupported : forall (p : slist) (st : cstate),
+  compile p = COk st -> supported_slist p = true.
 Proof.
-  intros p st H. unfold compile_fixed, compile_program in H. rewrite compile_slist_body in H.
+  intros p st H. unfold compile, compile_program in H. rewrite compile_slist_body in H.
   destruct strict_stmt_supported as (_ & SL & _). eapply SL; eauto.
 Qed.
 
@@ -161,14 +161,14 @@ Lemma make_arg_bytes o z : has_operand o = true -> (0 <= z < 65536)%Z ->
   exists hi lo, make (N_of_opc o) [z] = Some [N_of_opc o; hi; lo] /\ hi * 256 + lo = Z.to_N z.
 Proof.
   intros HO Hz. unfold make. rewrite lookup_def_opc, HO. cbn [make_operands option_map].
-  change (2 =? 2) with true. cbv iota.
+  change (2 =? 2) with true. assert (HF : fits16 z = true) by (unfold fits16; lia). rewrite HF. cbn [andb negb]. cbv iota.
   destruct (put16_read z Hz) as (hi & lo & -> & E). exists hi, lo. split; [reflexivity|exact E].
 Qed.
 
 Lemma make_noarg_bytes o : has_operand o = false -> make (N_of_opc o) [] = Some [N_of_opc o].
 Proof. intro HO. unfold make. rewrite lookup_def_opc, HO. reflexivity. Qed.
 
-Lemma emit_ok o ops st st' : emit o ops st = COk st' ->
+Lemma emit_ok o ops st st' : emit true o ops st = COk st' ->
   exists ins, make (N_of_opc o) ops = Some ins /\
               st' = {| ccode := ccode st ++ ins; cconsts := cconsts st; csym := csym st; cbreaks := cbreaks st |}.
 Proof.
@@ -210,7 +210,7 @@ Fixpoint efrag (e : expr) : bool :=
 (* every name the symbol table resolves is a global whose slot fits 16 bits,
    and the VM's global slots hold the environment *)
 Definition sym_static (sym : symtab) : Prop :=
-  forall n y, st_resolve n sym = Some y -> sscp y = GlobalScope /\ sidx y < 65536.
+  forall n y, st_resolve n sym = Some y -> sscp y = GlobalScope.
 Definition globals_hold (env : genv) (sym : symtab) (g : list value) : Prop :=
   forall n y v, st_resolve n sym = Some y -> env n = Some v -> nth_error g (N.to_nat (sidx y)) = Some v.
 
@@ -220,14 +220,13 @@ Definition run_to (p : program) (s : vmstate) (len : nat) (v : value) : Prop :=
 
 Definition expr_correct (e : expr) : Prop :=
   forall env st st' v,
-    compile_expr false e st = COk st' -> eval_expr env e = Some v -> sym_static (csym st) ->
+    compile_expr true e st = COk st' -> eval_expr env e = Some v -> sym_static (csym st) ->
     csym st' = csym st /\
     exists seg newc,
       ccode st' = ccode st ++ seg /\ cconsts st' = cconsts st ++ newc /\
       forall p s more pre post,
         pcode p = pre ++ seg ++ post ->
         pconsts p = map const_value (cconsts st') ++ more ->
-        (Z.of_nat (List.length (cconsts st')) <= 65536)%Z ->
         ip s = N.of_nat (List.length pre) ->
         globals_hold env (csym st) (globals s) ->
         N.of_nat (List.length (locals s)) + N.of_nat (List.length (ostack s)) + edepth e <= StackSize ->
@@ -249,21 +248,20 @@ Qed.
 
 (* a constant: OpConstant idx *)
 Lemma const_correct k st st' :
-  emit_const k st = COk st' ->
+  emit_const true k st = COk st' ->
   csym st' = csym st /\
   exists seg, ccode st' = ccode st ++ seg /\ cconsts st' = cconsts st ++ [k] /\
     forall p s more pre post,
       pcode p = pre ++ seg ++ post ->
       pconsts p = map const_value (cconsts st') ++ more ->
-      (Z.of_nat (List.length (cconsts st')) <= 65536)%Z ->
       ip s = N.of_nat (List.length pre) ->
       N.of_nat (List.length (locals s)) + N.of_nat (List.length (ostack s)) + 1 <= StackSize ->
       run_to p s (List.length seg) (const_value k).
 Proof.
   unfold emit_const. intro H. apply emit_ok in H. destruct H as (ins & HM & ->). cbn [csym ccode cconsts].
   split; [reflexivity|]. exists ins. split; [reflexivity|]. split; [reflexivity|].
-  intros p s more pre post HC HK HB HI HR.
-  rewrite app_length in HB. simpl in HB.
+  intros p s more pre post HC HK HI HR.
+  pose proof (make_some_range Constant _ _ eq_refl HM) as HRng.
   destruct (make_arg_bytes Constant (Z.of_nat (List.length (cconsts st)))) as (hi & lo & HM' & E); [reflexivity|lia|].
   rewrite HM in HM'. inversion HM'; subst ins; clear HM'.
   eapply run_one.
@@ -282,7 +280,7 @@ Proof. induction e; simpl; lia. Qed.
 
 (* a no-operand pure instruction appended by emit, executed *)
 Lemma noarg_step o st2 st' :
-  emit o [] st2 = COk st' -> has_operand o = false ->
+  emit true o [] st2 = COk st' -> has_operand o = false ->
   csym st' = csym st2 /\ cconsts st' = cconsts st2 /\ ccode st' = ccode st2 ++ [N_of_opc o].
 Proof.
   intros H HO. apply emit_ok in H. destruct H as (ins & HM & ->).
@@ -290,8 +288,8 @@ Proof.
 Qed.
 
 Lemma binop_correct op lt rt st2 st' a b v :
-  compile_binop op lt rt st2 = COk st' -> eval_binop op lt rt a b = Some v ->
-  exists o, emit o [] st2 = COk st' /\ is_pure o = true /\ has_operand o = false /\
+  compile_binop true op lt rt st2 = COk st' -> eval_binop op lt rt a b = Some v ->
+  exists o, emit true o [] st2 = COk st' /\ is_pure o = true /\ has_operand o = false /\
             (forall arg, simple_effect o arg = Some (2, 1)) /\
             forall arg cs ls gs, pure_sem o arg cs ls gs [b; a] = POk v.
 Proof.
@@ -307,16 +305,16 @@ Qed.
 
 Lemma unop_correct op st1 st' a v :
   (match op with
-   | UMinus => emit Minus [] st1
-   | UBang => emit Not [] st1
-   | UOtherOp => COk st1
+   | UMinus => emit true Minus [] st1
+   | UBang => emit true Not [] st1
+   | UOtherOp => CErr ErrUnknownOperator
    end) = COk st' ->
   (match op with
    | UMinus => match a with VNum f => Some (VNum (- f)) | _ => None end
    | UBang => match a with VBool b => Some (VBool (negb b)) | _ => None end
    | UOtherOp => None
    end) = Some v ->
-  exists o, emit o [] st1 = COk st' /\ is_pure o = true /\ has_operand o = false /\
+  exists o, emit true o [] st1 = COk st' /\ is_pure o = true /\ has_operand o = false /\
             (forall arg, simple_effect o arg = Some (1, 1)) /\
             forall arg cs ls gs, pure_sem o arg cs ls gs [a] = POk v.
 Proof.
@@ -330,14 +328,14 @@ Proof.
   - (* ENum *)
     simpl in HC, HE. inversion HE; subst v. destruct (const_correct _ _ _ HC) as (A & seg & B & C & D).
     split; [exact A|]. exists seg, [KNum f]. split; [exact B|]. split; [exact C|].
-    intros p s more pre post H1 H2 H3 H4 _ H6. eapply (D p s more pre post); eauto.
+    intros p s more pre post H1 H2 H4 _ H6. eapply (D p s more pre post); eauto.
   - (* EBool *)
     simpl in HC, HE. inversion HE; subst v.
     assert (HO : has_operand (if b then OTrue else OFalse) = false) by (destruct b; reflexivity).
     destruct (noarg_step _ _ _ HC HO) as (A & B & C).
     split; [exact A|]. exists [N_of_opc (if b then OTrue else OFalse)], []. split; [exact C|].
     split; [rewrite app_nil_r; exact B|].
-    intros p s more pre post H1 H2 H3 H4 _ H6. simpl in H6. eapply run_one.
+    intros p s more pre post H1 H2 H4 _ H6. simpl in H6. eapply run_one.
     + rewrite (fetch_noarg p s _ pre post H1 H4 HO).
       apply (exec_pure p s _ _ _ 0 (VBool b)); try (destruct b; reflexivity).
       * simpl; lia.
@@ -346,17 +344,18 @@ Proof.
   - (* EStr *)
     simpl in HC, HE. inversion HE; subst v. destruct (const_correct _ _ _ HC) as (A & seg & B & C & D).
     split; [exact A|]. exists seg, [KStr s]. split; [exact B|]. split; [exact C|].
-    intros p s0 more pre post H1 H2 H3 H4 _ H6. eapply (D p s0 more pre post); eauto.
+    intros p s0 more pre post H1 H2 H4 _ H6. eapply (D p s0 more pre post); eauto.
   - (* EVar *)
     simpl in HC, HE. unfold compile_var in HC.
     destruct (st_resolve n (csym st)) as [y|] eqn:ER; [|discriminate].
-    destruct (HS _ _ ER) as [HG HI]. rewrite HG in HC.
+    pose proof (HS _ _ ER) as HG. rewrite HG in HC.
     apply emit_ok in HC. destruct HC as (ins & HM & ->). cbn [csym ccode cconsts].
+    pose proof (make_some_range GetGlobal _ _ eq_refl HM) as HRng.
     destruct (make_arg_bytes GetGlobal (Z.of_N (sidx y))) as (hi & lo & HM' & E); [reflexivity|lia|].
     rewrite HM in HM'. inversion HM'; subst ins; clear HM'.
     split; [reflexivity|]. exists [N_of_opc GetGlobal; hi; lo], []. split; [reflexivity|].
     split; [rewrite app_nil_r; reflexivity|].
-    intros p s more pre post H1 H2 H3 H4 H5 H6. simpl in H6. eapply run_one.
+    intros p s more pre post H1 H2 H4 H5 H6. simpl in H6. eapply run_one.
     + rewrite (fetch_arg p s GetGlobal hi lo pre post H1 H4 eq_refl).
       apply (exec_pure p s GetGlobal _ _ 0 v); try reflexivity.
       * simpl; lia.
@@ -378,12 +377,11 @@ Proof.
     destruct (noarg_step _ _ _ HEm HO) as (A' & B' & C').
     split; [congruence|]. exists (seg ++ [N_of_opc o]), newc.
     split; [rewrite C', B, app_assoc; reflexivity|]. split; [congruence|].
-    intros p s more pre post H1 H2 H3 H4 H5 H6.
+    intros p s more pre post H1 H2 H4 H5 H6.
     assert (R1 : run_to p s (List.length seg) a).
     { eapply (D p s more pre ([N_of_opc o] ++ post)).
       - rewrite H1, <- !app_assoc. reflexivity.
       - rewrite H2, B'. reflexivity.
-      - rewrite <- B'. exact H3.
       - exact H4.
       - exact H5.
       - simpl in H6. exact H6. }
@@ -408,12 +406,11 @@ Proof.
     split; [congruence|]. exists (seg1 ++ seg2 ++ [N_of_opc o]), (newc1 ++ newc2).
     split; [rewrite C', B2, B1, <- !app_assoc; reflexivity|].
     split; [rewrite B', C2, C1, <- app_assoc; reflexivity|].
-    intros p s more pre post H1 H2 H3 H4 H5 H6. cbn [edepth] in H6.
+    intros p s more pre post H1 H2 H4 H5 H6. cbn [edepth] in H6.
     assert (R1 : run_to p s (List.length seg1) a).
     { eapply (D1 p s (map const_value newc2 ++ more) pre (seg2 ++ [N_of_opc o] ++ post)).
       - rewrite H1, <- !app_assoc. reflexivity.
       - rewrite H2, B', C2, map_app, <- app_assoc. reflexivity.
-      - rewrite B', C2, app_length in H3. lia.
       - exact H4.
       - exact H5.
       - pose proof (N.le_max_l (edepth e1) (1 + edepth e2)). lia. }
@@ -423,7 +420,6 @@ Proof.
     { eapply (D2 p s1 more (pre ++ seg1) ([N_of_opc o] ++ post)).
       - rewrite H1, <- !app_assoc. reflexivity.
       - rewrite H2, B'. reflexivity.
-      - rewrite <- B'. exact H3.
       - unfold s1; simpl. rewrite H4, app_length. lia.
       - unfold s1; simpl. rewrite A1. exact H5.
       - unfold s1; cbn [ostack locals List.length]. pose proof (N.le_max_r (edepth e1) (1 + edepth e2)). lia. }
